@@ -28,25 +28,44 @@ MANIFEST = dict(
          "the one-element list (C03_new_on_fresh), name[len] on a list of length len appends exactly one element "
          "(C03_len_appends) - each also when followed by any chain of fresh names (name[new()]/x/y appends {x: {y: v}}); "
          "(3b) the general statement over the step type CStep (name | name[e] | [e]) with reference semantics createIn: for "
-         "every path of the honoured grammar G_ok of any length whose first step is a fresh name, name[new()] (fresh or "
-         "existing name), name[0] (fresh) or name[len] below an existing dict node and whose later steps are fresh names, "
-         "n[new()] or n[0], d[path]=v yields exactly createIn (C03_create_partial, by mutual induction over the two states "
-         "of _add: inside a dict / on a list with a placeholder); "
+         "every path of the honoured grammar G_ok of any length - first step a fresh name, name[new()] (fresh or existing "
+         "name), name[0] (fresh), name[len] below an existing dict node, or a bare [new()]/[len] below an existing list "
+         "(held by a dict key: the text of name[new()]/name[len]; or itself a list element); later steps fresh names, "
+         "n[new()] or n[0] - d[path]=v yields exactly createIn (C03_create; C03_create_partial is the dict-first-step part, "
+         "by mutual induction over the two states of _add: inside a dict / on a list with a placeholder), with exactly one "
+         "hypothesis: for a bare [new()] first step no plain list directly encloses the target list (PlainListEncloses). "
+         "That hypothesis is necessary: [new()] below an element of a plain list raises TypeError and leaves the tree alone "
+         "for every tree, depth and continuation (C03_new_in_plain_list_raises = finding C03-c in general; smallest witness "
+         "C03_new_in_plain_list_cex), so the unhypothesised statement C03_create_stmt is refuted (C03_create_stmt_false); "
+         "below an n0list [new()] appends exactly one element (C03_append_new_in_n0list) and [len] appends below any list "
+         "(C03_len_in_list); "
          "(4) frame: every node that existed keeps position and value, except ancestors of the written slot; elements of the "
          "list stay, a wrapped value moves below index 0 (C03_frame_new_slot, C03_frame_append, C03_frame_wrap); read-back: "
-         "getItem returns v through the same path with the index replaced by last() and does not change the tree, for a "
-         "chain of names and for one element-creating step followed by names (C03_read_back_names, C03_read_back_elem). "
-         "Stated, not proved: C03_create_stmt (the same statement including a bare [new()]/[len] first step below a list; "
-         "open only for a list that is itself a list element, where it is false for plain lists: C03-c), the general "
-         "read-back for arbitrary paths (C03_read_back_stmt). Refuted by counter-example theorems: an error leaves the tree unchanged "
-         "(C03_err_leaves_tree_false via C03_debris_cex = C03-a), silent misplacement (C03_misplaced_cex = C03-b), [new()] "
-         "below an element of a plain list raises (C03_new_in_plain_list_cex = C03-c). Differential part: the model is compared "
-         "with the real code on creation paths of every shape, inside and outside G_ok (tree after success and after failure); "
-         "the statement is executed on the implementation along histories that interleave G_ok creations with C02 writes and "
-         "C05 deletes against a plain reference, and refused creations must raise and store v nowhere.",
+         "for every creation path of C03_create_partial, getItem through xpath.replace('new()', 'last()') returns v and does "
+         "not change the tree (C03_read_back, with str.replace proved equal to a left-to-right scan and the replaced text "
+         "computed: C03_read_back_path; the same for every first step, also a bare [new()]/[len] below a list: "
+         "C03_read_back_any; names on the path must not contain '(' since replace would rewrite a name containing "
+         "'new()'; C03_create_then_read states both halves together; C03_read_back_names / C03_read_back_elem are the earlier "
+         "special cases); "
+         "(5) histories: one operation type Hist.Op (write to an existing node; creation by a CStep path; delete with or "
+         "without recursively; pop), its reference semantics Hist.applyOp on plain trees (setAt, createIn, delAt, pruneUp) "
+         "and its model run Hist.runOp through __setitem__/delete/pop on the canonical path text of the current state: for "
+         "every finite interleaving valid in the state each call is made in (Hist.ValidOps: plain names on the PATHS of the "
+         "operations only - nothing is asked of the keys inside the tree or inside written values) the final tree equals "
+         "the reference fold, nothing raises and every pop returned the node it removed (C03_history, by induction over the "
+         "history; the root stays a dict of the same class: C03_history_root; one call: C03_history_step). "
+         "Stated, not proved: the unrestricted read-back C03_read_back_stmt (any path text that happens to succeed, also "
+         "outside G_ok - finding C03-b contradicts it at fuel 40 - and names containing 'new()'). Refuted by counter-example "
+         "theorems: an error leaves the tree unchanged (C03_err_leaves_tree_false via C03_debris_cex = C03-a), silent "
+         "misplacement (C03_misplaced_cex = C03-b), C03_create_stmt (C03_create_stmt_false = C03-c). Differential part: the "
+         "model is compared with the real code on creation paths of every shape, inside and outside G_ok (tree after success "
+         "and after failure); the statement is executed on the implementation along histories that interleave G_ok "
+         "creations with C02 writes and C05 deletes against a plain reference, and refused creations must raise and store v "
+         "nowhere.",
     note="G_ok: every element-creating step (name[new()], name[0] on a fresh name, [new()], [len]) is the last step or is "
-         "followed by a plain name step; other shapes are the known findings C03-a/C03-b. Relative spellings and the "
-         "shapes of G_ok not covered by a theorem are differential only.",
+         "followed by a plain name step; other shapes are the known findings C03-a/C03-b. Relative spellings of the "
+         "creation paths and histories whose operations use non-canonical spellings are differential only (single "
+         "deletes/pops in every spelling: C05_delete_spellings, C05_pop_spellings).",
     design_ref="5/C03",
 )
 
